@@ -106,6 +106,38 @@ static void fixed_checks(void)
   econf_err rc = econf_readFile(&kf, p, "=", "#");
   if (rc != ECONF_NOFILE) mc_fail("missing-file", "econf_readFile of a missing file returned %d", (int)rc);
   if (kf != NULL && kf != SENT_KF) { mc_fail("missing-file", "object handed back for a missing file"); }
+  /* a file can be missing in more than one way: the name below a regular file, a name longer than the file system allows */
+  {
+    char plain[400], below[500], longn[800];
+    snprintf(plain, sizeof plain, "%s/plain.conf", mc_work); mc_write_file(plain, "a=1\n", 4);
+    snprintf(below, sizeof below, "%s/absent.conf", plain);
+    size_t o = (size_t)snprintf(longn, sizeof longn, "%s/", mc_work); memset(longn + o, 'n', 300); strcpy(longn + o + 300, ".conf");
+    const char *miss[2] = { below, longn }; const char *what[2] = { "a name below a regular file", "a name of 305 characters" };
+    for (int i = 0; i < 2; i++) {
+      mc_case_failed = 0; kf = SENT_KF;
+      rc = econf_readFile(&kf, miss[i], "=", "#");
+      if (rc != ECONF_NOFILE) mc_fail("missing-file", "econf_readFile of a file that does not exist (%s) returned %d (%s) instead of file-not-found", what[i], (int)rc, econf_errString(rc));
+      if (kf != NULL && kf != SENT_KF) econf_freeFile(kf);
+    }
+    /* layered read in which one of the two directories is a regular file: that layer has no files, the other one decides */
+    char good[400], gd[500], bad[600];
+    snprintf(good, sizeof good, "%s/lay", mc_work); mkdir(good, 0755);
+    snprintf(gd, sizeof gd, "%s/cfg.conf", good); mc_write_file(gd, "g=1\n", 4);
+    for (int order = 0; order < 2; order++) {
+      mc_case_failed = 0; kf = SENT_KF;
+      rc = order ? econf_readDirs(&kf, plain, good, "cfg", "conf", "=", "#") : econf_readDirs(&kf, good, plain, "cfg", "conf", "=", "#");
+      if (rc != ECONF_SUCCESS) mc_fail("missing-file", "layered read with a regular file as %s directory returned %d (%s), the other layer has a well-formed file", order ? "first" : "second", (int)rc, econf_errString(rc));
+      if (kf != NULL && kf != SENT_KF) econf_freeFile(kf);
+    }
+    snprintf(gd, sizeof gd, "%s/cfg.conf.d", good); mkdir(gd, 0755);
+    snprintf(bad, sizeof bad, "%s/20-bad.conf", gd); mc_write_file(bad, "x=1\n\n[broken\n", 13);
+    mc_case_failed = 0; kf = SENT_KF;
+    rc = econf_readDirs(&kf, good, plain, "cfg", "conf", "=", "#");
+    char *lf = NULL; uint64_t ln = 0; econf_errLocation(&lf, &ln);
+    if (rc != ECONF_MISSING_BRACKET || !lf || strcmp(lf, bad) || ln != 3) mc_fail("missing-file", "malformed drop-in next to a layer that is a regular file: rc=%d (%s) location %s:%llu, expected Missing bracket at %s:3", (int)rc, econf_errString(rc), lf ? lf : "<NULL>", (unsigned long long)ln, bad);
+    free(lf);
+    if (kf != NULL && kf != SENT_KF) econf_freeFile(kf);
+  }
   mc_case_failed = 0;
   for (int i = 0; i < 25; i++) { mc_case_failed = 0; if (strcmp(econf_errString((econf_err)i), MESSAGES[i])) mc_fail("message-table", "econf_errString(%d) = \"%s\", documented message is \"%s\"", i, econf_errString((econf_err)i), MESSAGES[i]); }
   mc_st->executed++; mc_st->compared++;
